@@ -24,14 +24,18 @@ META = {
     "technique": "Lean 4 theorems over hand-written step models of MultiReadMemory, MultiportXORMemory, OneHotCodedILVT "
     "and MultiportILVTMemory (refinement to an ideal synchronous memory by pipeline invariants; algebraic cores for any "
     "number of write ports); cycle-exact three-way lock-step of real class / Amaranth's own Memory / Lean models in pysim",
-    "level_text": "see the OBLIGATION lines of lean/TxV/Props/C23.lean: MultiReadMemory refines the ideal memory for all port "
-    "counts, init, transparency and granularity; the XOR and ILVT memories refine it for every number of write/read ports, "
-    "every depth/width/init/transparency and every history with pairwise distinct enabled write rows and in-range addresses "
-    "(granularity None); the algebraic cores xor_write_restores / onehot_ilvt_decode hold for any number of write ports",
+    "level_text": "see the OBLIGATION lines of lean/TxV/Props/C23.lean: c23_refines_multiread (no hypothesis: all port counts, "
+    "init, transparency, granularity); c23_refines_xor, c23_refines_ilvt (XOR-ILVT, one-hot-ILVT and plain table) and "
+    "c23_onehot_table are full pipeline refinements to the ideal memory for every depth/width/init, every number >= 1 of write "
+    "ports, every number of read ports, every transparency set and every history of in-range port values whose enabled write "
+    "ports address pairwise distinct rows (granularity None); xor_write_restores / onehot_ilvt_decode(_later) are the algebraic "
+    "cores for any number of write ports",
     "level_note": "trusted: Lean kernel, axioms propext/Quot.sound/Classical.choice; Amaranth semantics of lib.memory.Memory "
-    "(validated each run against the Lean Ideal model) and pysim; the harness glue. Known finding F9: ILVT memories accept "
-    "write granularity but redirect the whole row; kept out of ordinary generation (witness replayed). "
-    "Out-of-range addresses (depth not a power of two) are outside the theorems; MultiportXORMemory differs from Amaranth there.",
+    "(the Lean Ideal model is compared with Amaranth's own Memory on every cycle of every run) and pysim; the harness glue; the "
+    "hand-written models (compared cycle-exactly with the real classes, also outside the hypotheses). Hypotheses forced by the "
+    "real code (each tried at the excluded point, see findings_proposed.txt): no granularity on the ILVT classes (F9: accepted "
+    "by the constructors, wrong data), at least one write port for the XOR/ILVT classes (init ignored otherwise), addresses "
+    "< depth (MultiportXORMemory forwards dropped out-of-range writes through its bypass).",
 }
 
 CLASSES = {
@@ -195,7 +199,8 @@ def monitor(case: Case, out: list[str]) -> Optional[str]:
 def _desc(cls, depth, w, grans, trs, init) -> dict:
     return {
         "component": CLASSES[cls], "cls": cls, "depth": depth, "width": w, "nr": len(trs), "nw": len(grans),
-        "granularity": None if not any(grans) else list(grans), "init": bool(init), "transparent": any(trs),
+        "granularity": None if not any(grans) else list(grans), "has_granularity": any(grans),
+        "init": bool(init), "transparent": any(trs),
     }
 
 
@@ -299,8 +304,8 @@ def directed_cases(ctx: Check) -> list[Case]:
 def random_cases(ctx: Check) -> list[Case]:
     rng = ctx.rng("gen")
     cs: list[Case] = []
-    ncfg = ctx.pick(5, 60)  # configurations per class
-    ncyc = ctx.pick(120, 1500)
+    ncfg = ctx.pick(5, 45)  # configurations per class
+    ncyc = ctx.pick(120, 1200)
     for cls in CLASSES:
         for k in range(ncfg):
             depth = rng.choice([1, 2, 3, 4, 5, 6, 7, 8, 9]) if k else 5
@@ -339,6 +344,58 @@ def malformed_cases(ctx: Check) -> list[Case]:
             amax = 1 << (depth - 1).bit_length()
             ops = gen_ops(rng, depth, w, grans, nr, ctx.pick(60, 600), amax=amax, collide=(k % 2 == 0) or cls in ("mr",))
             cs.append(mk_case(cls, depth, w, grans, trs, init, ops, "malformed"))
+    # no write port at all: the XOR/ILVT classes have no bank then and ignore init (proposed finding F-c23-2)
+    for cls in ("xor", "xilvt", "ohilvt", "lvt"):
+        ops = [([], [(1, a)]) for a in range(3)] + [([], [(0, 0)])]
+        cs.append(mk_case(cls, 3, 3, [], [0], [5, 6, 7], ops, "malformed"))
+    return cs
+
+
+# witnesses of the findings proposed in findings_proposed.txt (replayed for information only until the
+# coordinator lists them in known_findings.txt: no verdict is derived from them)
+PROPOSED = {
+    "F9 ILVT granularity": ("xilvt", 2, 2, [1, 1], [0], [],
+                            [([(3, 0, 3), (0, 0, 0)], [(0, 0)]), ([(0, 0, 0), (1, 0, 0)], [(0, 0)]),
+                             ([(0, 0, 0), (0, 0, 0)], [(1, 0)]), ([(0, 0, 0), (0, 0, 0)], [(0, 0)])]),
+    "F9 one-hot ILVT granularity, transparent": ("ohilvt", 2, 2, [1], [1], [],
+                                                 [([(3, 0, 3)], [(0, 0)]), ([(1, 0, 0)], [(1, 0)]), ([(0, 0, 0)], [(0, 0)])]),
+    "F-c23-2 no write port, init ignored": ("xor", 2, 2, [], [0], [1, 2], [([], [(1, 1)]), ([], [(0, 0)])]),
+    "F-c23-3 XOR bypass of an out-of-range write": ("xor", 3, 2, [0], [0], [],
+                                                    [([(1, 3, 1)], [(0, 0)]), ([(0, 0, 0)], [(1, 3)]), ([(0, 0, 0)], [(0, 0)])]),
+}
+
+
+def proposed_witnesses(ctx: Check):
+    for name, (cls, depth, w, grans, trs, init, ops) in PROPOSED.items():
+        case = mk_case(cls, depth, w, grans, trs, init, ops, "witness")
+        try:
+            f = monitor(case, impl(case))
+        except Exception as e:  # noqa: BLE001
+            f = f"{type(e).__name__}: {e}"
+        ctx.count("proposed_finding_witnesses_still_failing" if f else "proposed_finding_witnesses_passing")
+        ctx.note(f"proposed finding '{name}': witness {'still fails: ' + f[:160] if f else 'no longer fails'}")
+
+
+def exhaustive_cases(ctx: Check) -> list[Case]:
+    """thorough tier: on a tiny configuration (2 rows, 2 write ports, 1 read port) every pair of consecutive
+    cycles of port values satisfying the hypothesis (the write pipelines are two stages deep), followed by
+    three cycles that read both rows; data values are fixed per (port, cycle)."""
+    import itertools
+
+    cs: list[Case] = []
+    cyc = []
+    for en0, a0, en1, a1, ren, ra in itertools.product((0, 1), repeat=6):
+        if en0 and en1 and a0 == a1:
+            continue
+        cyc.append((en0, a0, en1, a1, ren, ra))
+    tail = [([(0, 0, 0), (0, 0, 0)], [(1, 0)]), ([(0, 0, 0), (0, 0, 0)], [(1, 1)]), ([(0, 0, 0), (0, 0, 0)], [(0, 0)])]
+    for cls in ("xor", "xilvt", "ohilvt", "lvt", "oh"):
+        for tr in ((0,) if cls == "oh" else (0, 3, 1)):
+            init = [] if cls == "oh" else [2, 1]
+            for c1 in cyc:
+                for c2 in cyc:
+                    ops = [([(c[0], c[1], 1 + k), (c[2], c[3], 3 - k)], [(c[4], c[5])]) for k, c in enumerate((c1, c2))]
+                    cs.append(mk_case(cls, 2, 2, [0, 0], [tr], init, ops + tail, "exhaustive"))
     return cs
 
 
@@ -354,8 +411,10 @@ def corpus_cases() -> list[Case]:
 
 def more_cases(case: Case, rng):
     c = _cfg_of(case.cfg)
+    if c["cls"] != "mr" and not c["g"]:
+        return  # no write port: outside the theorems (proposed finding F-c23-2)
     for k in range(30):
-        grans = c["g"]
+        grans = c["g"] if c["cls"] == "mr" else [0] * len(c["g"])  # search inside the hypotheses only (F9)
         ops = gen_ops(rng, c["depth"], c["w"], grans, len(c["tr"]), 200, *[(0.6, 0.75), (0.9, 0.9), (0.4, 0.5)][k % 3])
         yield mk_case(c["cls"], c["depth"], c["w"], grans, c["tr"], c["init"], ops, "search")
 
@@ -380,6 +439,10 @@ def nontrivial(case: Case, out: list[str]) -> bool:
 # --------------------------------------------------------------------------- finding witnesses (F9)
 
 
+def _monitor_in_hypotheses(case: Case, out: list[str]) -> Optional[str]:
+    return None if case.tag == "malformed" else monitor(case, out)
+
+
 def replay_witness(w: dict) -> Optional[str]:
     """A witness is either a full case (`cfg` + `ops`) or a configuration class as the coordinator writes it
     (`cls` = class name, depth, width, read_ports, write_ports, init, transparent[, granularity]); the latter is
@@ -395,9 +458,9 @@ def replay_witness(w: dict) -> Optional[str]:
     trs = [(1 << nw) - 1 if w.get("transparent") else 0] * nr
     g = w.get("granularity") or 0
     grans = [g] * nw
-    for seed in range(4):
+    for seed in range(3):
         rng = random.Random(1000 + seed)
-        ops = gen_ops(rng, depth, width, grans, nr, 150, 0.6, 0.75)
+        ops = gen_ops(rng, depth, width, grans, nr, 120, 0.6, 0.75)
         case = mk_case(cls, depth, width, grans, trs, init, ops, "witness")
         f = monitor(case, impl(case))
         if f:
@@ -430,13 +493,17 @@ def run(ctx: Check):
         ctx.count("transparent" if c.desc.get("transparent") else "non_transparent")
         if c.desc.get("granularity"):
             ctx.count("with_granularity")
+    # cases outside the hypotheses (tag "malformed") run in the same batch without the monitor: there only
+    # model = implementation and Ideal = Amaranth's Memory are checked, no property claim
+    cases += malformed_cases(ctx)
+    if ctx.thorough:
+        ex = exhaustive_cases(ctx)
+        ctx.count("exhaustive_two_cycle_histories", len(ex))
+        cases += ex
     t0 = time.time()
-    lockstep(ctx, "multiport-memories", "C23", cases, impl, monitor, more_cases, nontrivial, procs=procs)
+    lockstep(ctx, "multiport-memories", "C23", cases, impl, _monitor_in_hypotheses, more_cases, nontrivial, procs=procs)
     timing["lockstep_s"] = round(time.time() - t0, 1)
-    # outside the hypotheses: model = implementation and Ideal = Amaranth's Memory still, no property claim
-    t0 = time.time()
-    lockstep(ctx, "multiport-memories-outside-hypotheses", "C23", malformed_cases(ctx), impl, None, None, nontrivial, procs=procs)
-    timing["lockstep_outside_s"] = round(time.time() - t0, 1)
+    proposed_witnesses(ctx)
     ctx.extra_coverage["timing"] = timing
     ctx.note("reference = amaranth.lib.memory.Memory simulated next to the class; the Lean driver prints the Ideal model "
              "in the same column, so the specification the theorems refine to is itself validated against Amaranth")
